@@ -61,7 +61,9 @@ def parse_texts(tier, rnd):
     maxe = 60 if tier == "quick" else 330
     out = ["0", "-0", "0.0", "1", "-1", "0.1", "0.5", "1.5(2)", "2.50(13)", "1e0", "1E+2", "1e-2", "100", "12345678901234567890", "0.000001", "9007199254740993", "9007199254740992", "9007199254740991",
            "4503599627370497.5", "4503599627370496.5", "4503599627370495.5", "0.3", "0.1(1)", "1.7976931348623157e308", "2.2250738585072014e-308", "2.2250738585072011e-308", "4.9e-324", "1e308", "1.8e308", "123456789(99)", "1.000000000000000055511151231257827",
-           "1.00000000000000011102230246251565404236316680908203125", "1.00000000000000011102230246251565404236316680908203124", "1.00000000000000011102230246251565404236316680908203126", "5e-1", ".5", "5.", "00012.500", "+3.14159265358979323846264338327950288"]
+           "1.00000000000000011102230246251565404236316680908203125", "1.00000000000000011102230246251565404236316680908203124", "1.00000000000000011102230246251565404236316680908203126", "5e-1", ".5", "5.", "00012.500", "+3.14159265358979323846264338327950288",
+           # written exponents beyond the range of a double whose digits bring the value back into it
+           "0.0000001e315", "0.000000000025e318(5)", "12345678901234567890e-320", "-1000000e-312", "0.001e311", "1000e-311", "0.00000000000000000001e328"]
     # ties: (2^53 + 1) * 2^k written out in decimal, and neighbours
     for k in (0, 1, 2, 5, 10, 30, 60, 100):
         if k * 0.30103 + 16 > maxe + 20:
@@ -171,6 +173,20 @@ def c10(tier, replay=None):
             if o[0].get("rc") != 0 or v.get("k") != "numb" or v.get("d") in (None, "err"):
                 rep.violation("number text refused", "text %r: build rc %s, value %s" % (s, o[0].get("rc"), v), {"text": s}); continue
             D, sc = int(v["dg"]), v["sc"]
+            # the digits and the scale the library holds must denote the decimal number the text spells (independent reading
+            # of the text: mantissa digits, position of the point, written exponent); the uncertainty counts units of the
+            # last mantissa digit
+            mt = re.match(r"^\s*([+-]?)(\d*)\.?(\d*)(?:[eE]([+-]?\d+))?(?:\((\d+)\))?\s*$", s)
+            if mt:
+                from fractions import Fraction
+                ip, fp, ex, sud = mt.group(2), mt.group(3), int(mt.group(4) or 0), mt.group(5)
+                unit = Fraction(10) ** (ex - len(fp))
+                spelled = int((ip + fp) or "0") * unit
+                held = D * Fraction(10) ** (-sc)
+                if held != spelled:
+                    rep.violation("parse: digits and scale held do not denote the number spelled", "text %r: held digits %s scale %s" % (s, v["dg"], sc), {"text": s}); continue
+                if sud is not None and v.get("su") is not None and int(v["su"]) * Fraction(10) ** (-sc) != int(sud) * unit:
+                    rep.violation("parse: uncertainty held does not denote the one spelled", "text %r: held su digits %s scale %s" % (s, v["su"], sc), {"text": s}); continue
             sg, m, e, kind = decompose(v["d"])
             rec = {"t": "parse", "zero": D == 0, "inrange": in_normal_range(D, sc) and kind in ("normal", "zero"), "digits": digs(D), "scale": sc, "m": digs(m), "e": e,
                    "hassu": v.get("su") is not None, "su": [], "sum": [], "sue": 0, "suinrange": False}
